@@ -93,8 +93,9 @@ def _enclosing_lists(ctx, rep, cl):
                 if post == cv or vname in (f.mparams[1], f.mparams[2]) or post[0] == "const":
                     continue  # unchanged, the collected texts (checked below), or a progress flag
                 want = ("sub", cv, ("slice", ln(lv0), None, None)) if is_head else ("sub", cv, ("slice", None, ("unop", "-", ln(lv0)), None))
+                want_b = None if is_head else ("sub", cv, ("slice", None, ("binop", "-", ln(cv), ln(lv0)), None))  # val[:len(val) - k] == val[:-k] for k > 0 (the texts are non-empty: enclosing-constants)
                 if True:
-                    rep.ob(cl + ".enclosing-strip", "%s:%s" % (f.name, "head" if is_head else "tail"), post == want, "after moving an enclosing text the value becomes %s; expected exactly that text removed (%s)" % (show(post), show(want)), W(f, li.node), key="%s.enclosing-strip|%s" % (cl, "head" if is_head else "tail"))
+                    rep.ob(cl + ".enclosing-strip", "%s:%s" % (f.name, "head" if is_head else "tail"), post == want or (want_b is not None and post == want_b), "after moving an enclosing text the value becomes %s; expected exactly that text removed (%s)" % (show(post), show(want)), W(f, li.node), key="%s.enclosing-strip|%s" % (cl, "head" if is_head else "tail"))
         for bp in li.body_paths:
             vals = [n for n, (vpre, vposts) in li.carried.items() if n not in (f.mparams[1], f.mparams[2]) and not all(x[0] == "const" or x == ("carried", n, li.uid) for x in vposts)]
             t = bp.truth(("call", ("attr", ("carried", vals[0] if vals else "val", li.uid), "startswith" if is_head else "endswith"), (lv0,), ()))
@@ -161,6 +162,12 @@ def c07(ctx, rep):
     independent_wiring(ctx, rep, "C07", only=("compiled_regexes", "pwd_lookup"))
     from .checks_pipe import import_clauses
     import_clauses(ctx, rep, "C07", "C09", c09, ("C09.replacement-verbatim",))  # a template would let a back-reference in the kept prefix re-insert the secret group
+    # a $9$ secret goes through the decoder first: a string the decoder neither refuses nor decodes fails the file in a way that depends on the secret's characters
+    from .checks_misc import c18 as _c18
+    import_clauses(ctx, rep, "C07", "C18", _c18, ("C18.valid-alphabet", "C18.valid-min-length", "C18.validated-before-tables", "C18.refusal"), with_k3=False)
+    # the secret stage runs whenever the caller asked for it, whatever else was asked for
+    from .checks_pipe import c19 as _c19
+    import_clauses(ctx, rep, "C07", "C19", _c19, ("C19.binding", "C19.options-not-rewritten"))
 
 
 def _one_lookup_per_run(ctx, rep, cl):
@@ -214,6 +221,11 @@ def c08(ctx, rep):
     _pfx8, _grps8, _parts8 = secret_struct.check_table(ctx, rep, "C08", want_catchalls=False)
     from . import refpatterns as _rp
     _rp.check(ctx, rep, "C08", _pfx8, _grps8, _parts8)  # a widened replaced span keys the same secret differently depending on what follows it
+    # the secret is the token as written (words of the line itself), and what the later stages do to a pseudonym does not depend on the line form around it
+    from .checks_pipe import split_line_shape, import_clauses
+    split_line_shape(ctx, rep, "C08")
+    from . import checks_rx as _rx
+    import_clauses(ctx, rep, "C08", "C11", _rx.c11, ("C11.sub-plumbing", "C11.sub-line", "C11.pure-lookup"))
     # "a $9$ string and any other spelling of the same plaintext are the same secret" rests on the decoder: C18's decoder clauses re-run
     from .report import Report
     from .checks_misc import c18
@@ -506,6 +518,13 @@ def c10(ctx, rep):
                             for s in subterms(e.a):
                                 if s[0] == "comp":
                                     srcs.append(s)
+                # acc |= {...} / acc = acc | {...} / acc = acc.union(...): the accumulated value grows by a comprehension
+                for nm_, (pre_, posts_) in li.carried.items():
+                    for post_ in posts_:
+                        if post_ != ("carried", nm_, li.uid):
+                            for s in subterms(post_):
+                                if s[0] == "comp" and s not in srcs:
+                                    srcs.append(s)
             ok = bool(srcs) and all(len(s[4]) == 1 and s[4][0][1] == ("attr", SELF, "reserved_words") and s[3] == s[4][0][0] for s in srcs)
             conds_ok = bool(srcs) and all(len(s[4][0][2]) == 1 and s[4][0][2][0][0] == "compare" and s[4][0][2][0][1] == ("in",) and s[4][0][2][0][2][1] == s[4][0][0] for s in srcs)
             rep.ob("C10.skip-set-subset-of-reserved", f_c.name, ok and conds_ok, "skip set elements: %s; expected reserved words (only) that contain a listed word" % [show(s)[:100] for s in srcs], W(f_c), key="C10.skip-set-subset-of-reserved|_generate_conflicting_reserved_word_list")
@@ -570,6 +589,17 @@ def c10(ctx, rep):
             r = path.returned()
             w = W(f_g, path.result[2] if path.result else f_g.node)
             stores = [e for e, ls in path.stores() if e.kind == "store_sub"]
+            memo_t = ("attr", SELF, "sens_word_replacements")
+            memo_sub = ("sub", memo_t, wp)
+            memo_in = ("compare", ("in",), (wp, memo_t))
+            if r == memo_sub:
+                # `return self.memo[word]` at the end: what was just stored under the word, or - when the word was found in the memo - the stored pseudonym
+                mine = [e for e in stores if e.a == memo_t and e.b == wp]
+                if mine:
+                    r = mine[-1].c
+                elif path.truth(memo_in) is True:
+                    rep.ob("C10.memo-hit", f_g.name, not stores, "memo hit returns the stored pseudonym of the same text", w)
+                    continue
             if r == memo_get:
                 rep.ob("C10.memo-hit", f_g.name, (path.truth(("compare", ("is",), (memo_get, ("const", None)))) is False or path.truth(memo_get) is True) and not stores, "memo hit returns the stored pseudonym of the same text", w)
             else:
@@ -588,6 +618,14 @@ def c10(ctx, rep):
     for o in sub.obligations:
         if o["clause"] in ("C08.reserved-checked-first", "C08.unchanged-only-when-licensed"):
             rep.ob("C10." + o["clause"].split(".", 1)[1], o["construct"], o["ok"], o["detail"], o["where"], o.get("witness"), key="C10.%s|%s" % (o["clause"].split(".", 1)[1], o["construct"]))
+    # ... and that set is the caller's set as given: the secret stage hands its reserved_words parameter on unchanged
+    sub2 = Report("C10", quiet=True)
+    secret_rmi.check_rmi(ctx, sub2, "C10")
+    for o in sub2.obligations:
+        if o["clause"] in ("C10.line-shape", "C10.replacement-value"):
+            rep.ob(o["clause"], o["construct"], o["ok"], o["detail"], o["where"], o.get("witness"), key="%s|%s" % (o["clause"], o["construct"]))
+    from .checks_pipe import import_clauses, c19 as _c19
+    import_clauses(ctx, rep, "C10", "C19", _c19, ("C19.list-options",))  # "no listed word survives": the lists reach the stage as typed (split on ',' only)
     rep.ob("C10.reserved-secret-unchanged", "_anonymize_value", n_res >= 1, "a secret value that is a reserved word is returned unchanged (paths: %d)" % n_res, W(av.fn), key="C10.reserved-secret-unchanged|_anonymize_value")
     # wiring + stage order
     f_fa = p.find_function("FileAnonymizer.__init__")
